@@ -8,7 +8,18 @@ TRUSTED_BASE = [
     "tools/vcheck.py (orchestration, parsing of coqc output)",
 ]
 
+PKT_MODELLED = ("04-packet/keeper/{packet,keeper}.go (SendPacket, RecvPacket, WriteAcknowledgement, AcknowledgePacket, CleanPacket, RecvCleanPacket, "
+                "ValidatePacket, ValidateCleanPacket, clean loops, counters), 04-packet/types/packet.go ValidateBasic (after fix 118a6f5), 24-host/keys.go key builders and "
+                "validate.go identifier rule, core/keeper/msg_server.go RecvPacket/Acknowledgement handlers, 26-routing Authenticate; light clients abstracted to "
+                "'snapshot of the counterparty store per height + Tendermint status rule'; sha256 abstracted to a function H (identity in the executable instance, "
+                "the harness maps hashes back to known pre-images); protobuf, BaseApp, IAVL, gas not modelled")
+PKT_ASSUMES = ["sequence numbers are uint64 (op_wf)", "honest-header premise: a header accepted by a light client carries the root of the counterparty's committed store (C07/C17/C18 + validator honesty)",
+               "proof verification = membership of (key,value) in the snapshot recorded at the proof height (C08 is about the byte-level verifiers)"]
+
 PROPS = {
+    "C02": {"test": "TestC02", "modelled": PKT_MODELLED, "assumes": PKT_ASSUMES},
+    "C09": {"test": "TestC09", "modelled": PKT_MODELLED, "assumes": PKT_ASSUMES},
+    "C10": {"test": "TestC10", "modelled": PKT_MODELLED, "assumes": PKT_ASSUMES},
     "C12": {
         "test": "TestC12",
         "modelled": "26-routing/keeper/keeper.go SetRoutingRules, Authenticate (after fix c2db1ec), types.RulePattern; json (un)marshal of the rule list is not modelled (store holds the list)",
